@@ -30,6 +30,7 @@ theorem Pred_IsCanonicalVartime
   unfold IsCanonicalVartime_sh
   repeat' (refine ite_l (fun _ => ?_) (fun _ => ?_))
   all_goals (refine sing_ite (fun _ => ?_) (fun _ => ?_))
-  all_goals first | rfl | (exfalso; omega)
+  -- leaves are constants or comparisons (`return v < c`); `with_reducible`: never try to evaluate a comparison of open terms
+  all_goals first | (with_reducible rfl) | (exfalso; omega) | (exact if_pos (by omega)) | (exact if_neg (by omega))
 
 end Voi.Props.L0
